@@ -721,7 +721,7 @@ pub fn check(cfg: &RunCfg, findings: &Findings) -> Report {
     cfg,
     "C14-inputs",
     16,
-    if quick { 40_000 } else { 400_000 },
+    if quick { 120_000 } else { 400_000 },
     96,
     420,
     |src: &mut Src| gen_case(src),
